@@ -34,6 +34,8 @@ Round 7: bits chosen by the truth of the value instead of the value modulo 2^wid
 override of _describe_yourself never takes entries of the base description away.
 Round 8: a class-level container filled by the methods of Bits; the extracted slice plus another
 quantity (sign extension); includes clause V of the cache protocol.
+Round 9: nothing per class is kept in the user's configuration dictionary (it may be shared by
+several classes); the field table is not parked in the namespace of the generated module (C15).
 """
 import ast
 import copy
